@@ -189,7 +189,7 @@ ANTECEDENTS = {
     "C19": ["c19_steps_with_shared_output_in_effect", "release_all_calls", "distinct_nontrivial"],
     "C10": ["wakeups_with_2plus_events", "wakeups_both_devices", "spurious_timeouts", "interruptions", "end_keyboard", "end_tablet", "metamorphic_runs", "distinct_nontrivial"],
     "C11": ["ticks", "firings_with_3plus_ticks", "ticks_with_chord_key_held", "ticks_after_ignored_event", "cancellations_by_other_key", "catchup_polls", "real_clock_timed_polls", "distinct_nontrivial"],
-    "C12": ["tablet_on", "tablet_on_with_keys_held", "tablet_on_with_repeat_pending", "tablet_repeated", "kb_events_in_tablet_mode", "post_off_steps", "tablet_and_keyboard_same_wakeup", "ticks_in_tablet_mode", "distinct_nontrivial"],
+    "C12": ["tablet_on", "tablet_on_with_keys_held", "tablet_on_with_repeat_pending", "tablet_repeated", "kb_events_in_tablet_mode", "post_off_steps", "tablet_and_keyboard_same_wakeup", "distinct_nontrivial"],
     "C20": ["fault_runs", "faults_at_send", "faults_at_poll", "faults_at_next_keyboard", "faults_at_next_tablet", "faults_at_register_poll", "distinct_nontrivial"],
 }
 
